@@ -202,6 +202,9 @@ func (r *Run) Violate(v Violation) {
 		}
 	}
 	r.nviol++
+	if len(r.samples) == 0 && v.Witness != nil {
+		r.samples = append(r.samples, map[string]any{"violating_case": v.Case, "witness": v.Witness})
+	}
 	if r.classes == nil {
 		r.classes = map[string]int{}
 	}
